@@ -65,6 +65,12 @@ def configs(tier):
             if pair:
                 i0 = [v for v in range(n) if v not in pair][:1]
                 ics.append(('sets', i0, pair))
+        if g in ('P3', 'paw'):
+            # nobody susceptible at tmin (SIS started from full infection; SIR with everybody infected or recovered): still consistent
+            ics.append(('sets', list(range(n)), []))
+            ics.append(('sets', list(range(n - 1)), [n - 1]))
+        if g == 'paw+K1':
+            ics.append(('sets', [0, 1, 2, 3], []))       # the only susceptible node is isolated: no susceptible stub either
         for entry in SIS_GRAPH + SIR_GRAPH + NODE + NODE_PURE + OTHER:
             sir = ('SIR' in entry) or entry.startswith('EBCM')
             for (kind, I0, R0) in ics:
@@ -85,8 +91,14 @@ def configs(tier):
                         continue
                     for weighted in ((False, True) if entry in NODE + NODE_PURE and g == 'P3' else (False,)):
                         out.append(dict(entry=entry, graph=g, ic=kind, I0=I0, R0=R0, full=full, weighted=weighted,
-                                        tags=[entry, g, kind, 'full' if full else 'plain'] + (['R0'] if R0 else []) + (['weighted'] if weighted else [])))
+                                        tags=[entry, g, kind, 'full' if full else 'plain'] + (['R0'] if R0 else []) + (['weighted'] if weighted else [])
+                                        + (['no-susceptible-stub'] if kind == 'sets' and _no_susceptible_stub(g, I0, R0) else [])))
     return out
+
+
+def _no_susceptible_stub(g, I0, R0):
+    G = graphs.make(g)
+    return not any(G.degree(v) > 0 for v in G if v not in I0 and v not in (R0 or []))
 
 
 def _sig(entry):
@@ -335,10 +347,12 @@ def _run(h, cfg, eng, EoN, an, flow):
     eng.div_guard = False
     if st0 == 'exc':
         h.fail('rhs-defined-at-X0:' + type(f0).__name__, {'exception': repr(f0)[:200], 'X0': show(list(call.X0))[:12]})
+        return None      # nothing further can be said about a right-hand side that is undefined at its own starting point
     else:
         bad0 = [j for j, v in enumerate(list(f0)) if isinstance(v, float) and (v != v or v in (float('inf'), float('-inf')))]
         if bad0:
             h.fail('rhs-defined-at-X0', {'nan_or_inf_components': bad0[:6]})
+            return None
         else:
             h.require('rhs-defined-at-X0', True)
     xs = [lift(v) for v in call.out[1]]
